@@ -398,15 +398,28 @@ def scan_lexicons(source: AnyPath) -> list[ScanInfo]:
     source = Path(source).expanduser()
     infos: list[ScanInfo] = []
 
-    lex_re = re.compile(b'<(Lexicon|LexiconExtension|Extends)\\b([^>]*)>', flags=re.M)
-    attr_re = re.compile(b'''\\b(id|version|label)=["']([^"']+)["']''', flags=re.M)
+    # start tags of the relevant elements; quoted attribute values may
+    # contain '>' so they are skipped as a whole
+    lex_re = re.compile(
+        b'<(Lexicon|LexiconExtension|Extends)\\b((?:[^>"\']|"[^"]*"|\'[^\']*\')*)>',
+        flags=re.M
+    )
+    # match every attribute (not only the relevant ones) so that text
+    # inside another attribute's value is never mistaken for an attribute
+    attr_re = re.compile(
+        b'([^\\s=]+)\\s*=\\s*(?:"([^"]*)"|\'([^\']*)\')',
+        flags=re.M
+    )
 
     with open(source, 'rb') as fh:
         for m in lex_re.finditer(fh.read()):
             lextype, remainder = m.groups()
             attrs = {
-                _m.group(1).decode("utf-8"): _m.group(2).decode("utf-8")
+                _m.group(1).decode("utf-8"): _attribute_value(
+                    _m.group(2) if _m.group(2) is not None else _m.group(3)
+                )
                 for _m in attr_re.finditer(remainder)
+                if _m.group(1) in (b'id', b'version', b'label')
             }
             info: ScanInfo = {
                 "id": attrs["id"],
@@ -427,6 +440,21 @@ def scan_lexicons(source: AnyPath) -> list[ScanInfo]:
                 raise LMFError('invalid use of <Extends> in WN-LMF file')
 
     return infos
+
+
+def _attribute_value(raw: bytes) -> str:
+    """Return the value of an attribute as an XML parser would report it."""
+    value = re.sub(r'\r\n|[\t\n\r]', ' ', raw.decode('utf-8'))
+    return re.sub(r'&(#[0-9]+|#x[0-9a-fA-F]+|lt|gt|amp|quot|apos);', _unescape, value)
+
+
+def _unescape(m: re.Match) -> str:
+    ref = m.group(1)
+    if ref.startswith('#x'):
+        return chr(int(ref[2:], 16))
+    elif ref.startswith('#'):
+        return chr(int(ref[1:]))
+    return {'lt': '<', 'gt': '>', 'amp': '&', 'quot': '"', 'apos': "'"}[ref]
 
 
 _Elem = dict[str, Any]  # basic type for the loaded XML data
